@@ -84,6 +84,9 @@ pub fn cases(ctx: &Ctx) -> Vec<WCase> {
 
 /// spectator frames against the host's final timeline (values and Disconnected-ness)
 fn compare_with_host(w: &Core, out: &mut Outcome) {
+    compare_with_host_pub(w, out, "C06")
+}
+pub fn compare_with_host_pub(w: &Core, out: &mut Outcome, prop: &'static str) {
     for n in w.nodes.iter().filter(|n| n.is_spec) {
         let host = &w.nodes[n.host.unwrap()];
         let lim = host.conf_max.min(host.game.frame() - 1);
@@ -101,7 +104,7 @@ fn compare_with_host(w: &Core, out: &mut Outcome) {
                 }
                 if a[h].0 != b[h].0 || sd != hd {
                     out.violate(Viol {
-                        prop: "C06",
+                        prop,
                         clause: "spectator frame differs from the host's final timeline".into(),
                         detail: format!("spectator {} frame {f} player {h}: spectator {:?}, host {:?}", n.addr, a[h], b[h]),
                         t_ms: w.end_t.saturating_sub(T0) / MS,
@@ -118,7 +121,7 @@ fn compare_with_host(w: &Core, out: &mut Outcome) {
 pub fn run_case(c: &WCase) -> Outcome {
     let o = Oracles { c06: true, c02: true, ..Default::default() };
     let diff = c.id.starts_with("diff-");
-    let mut out = run_world_case(c, o, "C06", &|w, out| {
+    let mut out = run_world_case(c, o, "C06", &["C02"], &|w, out| {
         out.count("spectator_frames_checked_online", w.obs.spec_frames_checked);
         out.count("catchup_calls", w.obs.spec_catchup_calls);
         out.count("prediction_threshold_waits", w.obs.spec_waits);
